@@ -150,7 +150,11 @@ func sameNode(e *v1x.Env, got, want codec.NK) bool {
 	if got == want {
 		return true
 	}
-	return want.Nonce == 1 && got.Nonce == 0 && got.Version == want.Version && want.Version < e.M.First
+	if want.Nonce == 1 && got.Nonce == 0 && got.Version == want.Version && want.Version < e.M.First {
+		e.C.Obs("links_spelled_with_the_rekeyed_root_key", 1)
+		return true
+	}
+	return false
 }
 
 func resolveRaw(raw *v1x.Raw, nk codec.NK) (codec.NK, []byte, bool) {
@@ -366,10 +370,14 @@ func rootReader(in []byte) error {
 	s.ApplyOps([]seam.WOp{
 		{K: codec.NK{Version: 2, Nonce: 1}.StoreKey(), V: codec.EncodeNode(leaf)},
 		{K: codec.NK{Version: 3, Nonce: 1}.StoreKey(), V: append([]byte{}, in...)},
+		// (version 4 refers back to version 3: an input that refers to version 3 or 4 closes a cycle)
+		{K: codec.NK{Version: 4, Nonce: 1}.StoreKey(), V: codec.NK{Version: 3, Nonce: 1}.StoreKey()},
 	})
 	t := iavl.NewMutableTree(s, 0, true, iavl.NewNopLogger())
 	_ = t.VersionExists(3)
 	_, err1 := t.GetImmutable(3)
+	_ = t.VersionExists(4)
+	_, _ = t.GetImmutable(4)
 	_, err2 := t.LoadVersion(3)
 	if err1 != nil {
 		return err1
@@ -411,6 +419,11 @@ func validEncodings(rng *rand.Rand) [][]byte {
 	out = append(out, append([]byte(nil), lb.Bytes()...))
 	// root markers
 	out = append(out, codec.NK{Version: 2, Nonce: 1}.StoreKey(), codec.NK{Version: 2, Nonce: 1}.StoreKey()[:9], []byte{})
+	// reference roots that name the entry they are stored under, its neighbour (which refers back) and
+	// entries that do not exist - in the 13-byte and the 9-byte form
+	for _, nk := range []codec.NK{{Version: 3, Nonce: 1}, {Version: 4, Nonce: 1}, {Version: 3, Nonce: 0}, {Version: 5, Nonce: 1}, {Version: 2, Nonce: 0}} {
+		out = append(out, nk.StoreKey(), nk.StoreKey()[:9])
+	}
 	return out
 }
 
@@ -523,7 +536,7 @@ func init() {
 		Cases: func(tier string) int { return tierN(tier, 900, 30000) },
 		Rule: "three case kinds by index mod 3. (0) forward: one history (10-45 ops; in half of them WorkingHash() is called between the writes of a version, which memoises node hashes and must not change what is stored; initial versions incl. 8150 so that version/nonce/size varints cross 1- and 2-byte boundaries; pruning, rollback, reopen) after EVERY step of which the raw storage is decoded by the independent decoder D and compared with the reference tree R for every retained version: node key numbering, heights, sizes, keys, values, stored inner hashes, child links, root marker kind and reference target, byte-exact equality of every stored node with D's ENCODER applied to R's node (catches non-canonical varints), numeric iteration order of the 's' keys. " +
 			"(1) reverse: a database written only by D's encoder from R's trees (1-6 versions, in a quarter of the cases with every non-root nonce moved above 2^31, reference roots in the 13-byte and the old 9-byte form, empty roots, with/without fast index and label, initial versions) is opened by iavl: Load, contents, Get and hash of every version, and a further commit must agree with R. " +
-			"(2) totality: 400 (quick) / 4000 (thorough) inputs per case - truncations, bit flips, length-field inflation up to 2^64-1, continuation-byte runs, appended garbage, random bytes, all derived from valid encodings of leaf/inner/legacy-child/legacy nodes, fast nodes and root markers - given to MakeNode, MakeLegacyNode, fastnode.DeserializeNode, DecodeBytes/DecodeUvarint/DecodeVarint (verif hook) and the reference-root reader (VersionExists/GetImmutable/LoadVersion over a store with a crafted root entry): a panic or an allocation beyond 256*len+64KiB (sampled 1 in 16 with runtime.MemStats) is a violation; a hang trips the per-case watchdog. " +
+			"(2) totality: 400 (quick) / 4000 (thorough) inputs per case - truncations, bit flips, length-field inflation up to 2^64-1, continuation-byte runs, appended garbage, random bytes, all derived from valid encodings of leaf/inner/legacy-child/legacy nodes, fast nodes and root markers - given to MakeNode, MakeLegacyNode, fastnode.DeserializeNode, DecodeBytes/DecodeUvarint/DecodeVarint (verif hook) and the reference-root reader (VersionExists/GetImmutable/LoadVersion over a store with a crafted root entry next to a valid version and a version that refers back to the crafted one; the inputs include reference roots naming their own entry, that neighbour, and missing entries): a panic or an allocation beyond 256*len+64KiB (sampled 1 in 16 with runtime.MemStats) is a violation; a hang trips the per-case watchdog. " +
 			"distinct = hash(kind, config, ops / index); non-trivial = forward: >=2 commits; reverse: >=2 versions; totality: always.",
 		Assumptions: []string{"D (internal/codec) implements the pinned format independently (encoding/binary only); R is the reference tree", "only the entry points the property lists are fuzzed; walking a successfully decoded but nonsensical node is out of scope"},
 		Run: func(c *fw.Ctx) {
